@@ -196,6 +196,17 @@ def ob_invalid(ob):
                   {'key': keys[v['args']['ki']], 'tract': bool(v['args']['kind'])}) for v in vs])
 
 
+def _multi_n(key, quick):
+    """elements for a multi-key obligation: 3, but 2 when the key looks at both a township and a range (quick) or at three or
+    more variables (either tier) -- the number of ordering / tie / error patterns grows too fast otherwise"""
+    vars_ = {k.strip()[0] for k in key.lower().split(',')}
+    if len(vars_) >= 3:
+        return 2
+    if quick and 't' in vars_ and 'r' in vars_:
+        return 2
+    return 3
+
+
 def obligations(tier):
     q = tier == 'quick'
     obs = []
@@ -211,7 +222,7 @@ def obligations(tier):
     for key in (MULTI_Q if q else MULTI_T):
         obs.append(Ob(f'sort_multi_{_norm(key)}', 'S', ob_sort, f'multi key {key}',
                       functions=['_TRSTractList.custom_sort', '_TRSTractList._sort_custom'], weight=6, timeout=1800,
-                      params={'kind': 'tract', 'n': 3 if not q else 2 if ('t' in key.lower().replace('.sn', '').replace('.ns', '') and 'r' in key.lower().replace('reverse', '').replace('rev', '')) else 3, 'key': key,
+                      params={'kind': 'tract', 'n': _multi_n(key, q), 'key': key,
                               'cap': 1500, 'with_reverse': False}))
     if not q:
         for key in ('t.ns', 'r.we', 's', 'i', 's,i', 't.sn.rev'):
